@@ -572,11 +572,29 @@ def representation_obligations(rep, cfgs=('K0',)):
                 rep.ob('mut:%s::%s:explore' % (ty, name), 'TS-EXPLORE', fn, prog.bodies[fn]['span'], 'method explored', False, 'INCONCLUSIVE(%s)' % ex)
                 continue
             mu.check_invariants_method(prog, e, segs, fn, ty, inv, rep, 'mut:%s::%s' % (ty, name))
+        other_writer_obligations(prog, rep, allinv)
         raw_ctor_callers(prog, rep, allinv)
         if cfg == 'K0':
             for fn, ty in mu.constructors(prog):
                 n_ctor += mu.check_constructor(prog, fn, ty, allinv, rep, EXEMPT_CTORS)
     return n_ctor
+
+
+def other_writer_obligations(prog, rep, allinv):
+    """the invariants hold at every exit of EVERY function with `&mut` access to a value type, not only of its inherent methods; and nobody hands
+    mutable access to the collections out"""
+    for fn, ty, k in mu.other_writers(prog):
+        full, inv = allinv.get(ty, (None, []))
+        if not inv:
+            continue
+        e = pxm.PX(prog)
+        try:
+            segs = e.explore(fn)
+        except pxm.Limit as ex:
+            rep.ob('writer:%s:explore' % fn, 'TS-EXPLORE', fn, prog.bodies[fn]['span'], 'function explored', False, 'INCONCLUSIVE(%s)' % ex)
+            continue
+        mu.check_invariants_method(prog, e, segs, fn, ty, inv, rep, 'writer:%s' % validators.fn_key(fn), recv=k)
+    mu.mutable_escapes(prog, rep)
 
 
 def mutator_obligations(rep, cfgs=('K0', 'K1'), with_getters=True):
@@ -614,6 +632,7 @@ def mutator_obligations(rep, cfgs=('K0', 'K1'), with_getters=True):
                 mu.check_invariants_method(prog, e, segs, fn, ty, inv, rep, keybase)
             if cfg == 'K0' and spec_effect(prog, e, segs, fn, ty, name, rep, roles, has_loops):
                 n_effect += 1
+        other_writer_obligations(prog, rep, allinv)
         raw_ctor_callers(prog, rep, allinv)
         if cfg == 'K0':
             for fn, ty in mu.constructors(prog):
